@@ -186,3 +186,46 @@ def pconc(case):
     from ndvc.concrete import evaluation_point_cases
     cnt, bad = evaluation_point_cases(fd, Bicomplex)
     return dict(reproduced=bool(bad), failing=bad[:3], cases=cnt, statement='evaluation points admissible in floating point')
+
+
+@reg('C05.signs')
+def signs(case):
+    """one-sided methods at points with negative, zero and positive coordinates, default and user steps: forward never evaluates
+    below x, backward never above, in any coordinate; the generated steps are positive"""
+    import warnings
+    import numdifftools as nd
+    bad = []
+    with warnings.catch_warnings():
+        warnings.simplefilter('ignore')
+        for xv in ([-2.0, -0.3], [-4.5, 3.0], [0.0, -1.0], [2.0, 0.5]):
+            for gen in (None, nd.MinStepGenerator(), nd.MaxStepGenerator(), nd.MinStepGenerator(base_step=0.01, num_steps=4)):
+                x = np.array(xv)
+                if gen is not None:
+                    for s in gen.step_generator_function(x, 'forward', 1, 2)():
+                        if not np.all(np.asarray(s) > 0):
+                            bad.append(dict(generator=type(gen).__name__, x=xv, step=np.asarray(s).tolist())); break
+                for klass in ('Derivative', 'Gradient', 'Jacobian', 'Hessdiag', 'Hessian'):
+                    for method in ('forward', 'backward'):
+                        calls = []
+
+                        def f(z):
+                            calls.append(np.array(z, dtype=float))
+                            z = np.asarray(z)
+                            if klass == 'Derivative':
+                                return z ** 3
+                            if klass == 'Jacobian':
+                                return z ** 2
+                            return z[0] * z[0] + z[1] * z[0] + z[1] ** 3
+                        kw = dict(method=method)
+                        if gen is not None:
+                            kw['step'] = gen
+                        try:
+                            getattr(nd, klass)(f, **kw)(x)
+                        except Exception as e:
+                            bad.append(dict(cls=klass, method=method, x=xv, raised=repr(e)[:100])); continue
+                        sgn = 1 if method == 'forward' else -1
+                        off = [z for z in calls if np.any(sgn * (z - x) < 0)]
+                        if off:
+                            bad.append(dict(cls=klass, method=method, x=xv, step=type(gen).__name__ if gen is not None else None,
+                                            evaluated_at=off[0].tolist(), rule='%s must stay %s x in every coordinate' % (method, 'at or above' if sgn > 0 else 'at or below')))
+    return dict(reproduced=bool(bad), failing=bad[:4])
